@@ -12,6 +12,8 @@ package bridgesync
 //@ func DecodeGlobalIndex
 //@   props C19
 //@   requires globalIndex != nil
+// one proof per byte length of the value (0..9 bytes are the values below 2^72, longer ones are the last case)
+//@   split bigLen(absInt(bigval(globalIndex))) in 0..9
 //@   ensures[no-error] err == nil
 //@   ensures[flag] absInt(bigval(globalIndex)) < 4722366482869645213696 ==> mainnetFlag == (absInt(bigval(globalIndex)) >= 18446744073709551616)
 //@   ensures[rollup] absInt(bigval(globalIndex)) < 4722366482869645213696 ==> rollupIndex == (absInt(bigval(globalIndex)) / 4294967296) % 4294967296
